@@ -1,3 +1,6 @@
-SPECIFICATION DummySpec
-INVARIANT DummyInv
+SPECIFICATION CaseSpec
+INVARIANT I_RoundTrip
+INVARIANT I_NormIdempotent
+INVARIANT I_DepsAreTasks
+INVARIANT I_RejectHasPath
 POSTCONDITION EmitPost
